@@ -66,6 +66,8 @@ def build_scenarios(wd, proto, n, t, kinds, seed, limit=None, scheds=1, cross=Fa
             s.pop("react", None)
             if c["kind"] == "equiv" and cross and k % 2 == 1:
                 s["cross"] = True
+            if c["kind"] == "equiv" and cross and k % 4 == 2:
+                s["both"] = True   # group B gets the B version addressed to it, then the A version as an ordinary broadcast
             if pool:
                 s["pool"] = True
             scen.append(s)
